@@ -28,6 +28,8 @@ CASES = [
  ("C06", "metrics/ranking/_pr.py", "        if self.k is not None and self.k < nrel:", "        if self.k is not None and self.k > nrel:", "break"),
  ("C06", "metrics/ranking/_pr.py", "        nrel = len(test)\n        if self.k is not None and self.k < nrel:\n            nrel = self.k\n", "        nrel = len(test) if self.k is None else min(len(test), self.k)\n", "keep"),
  ("C06", "metrics/ranking/_dcg.py", "            if self.k and self.k < n:", "            if self.k is not None and self.k <= n:", "keep"),
+ ("C07", "metrics/predict.py", "        if self.missing_truth == \"error\" and (nbad := np.sum(rate_m & ~pred_m)):", "        if self.missing_scores == \"error\" and (nbad := np.sum(rate_m & ~pred_m)):", "break"),
+ ("C07", "metrics/predict.py", "        if self.missing_scores == \"error\" and (nbad := np.sum(pred_m & ~rate_m)):", "        if (nbad := np.sum(pred_m & ~rate_m)) and self.missing_scores == \"error\":", "keep"),
  ("C07", "metrics/bulk.py", "                elif list_test is None:", "                elif not list_test:", "break"),
  ("C08", "basic/bias.py", "            elif user_id is not None:", "            elif user_id:", "break"),
  ("C09", "knn/user.py", "        if uidx is not None:", "        if uidx:", "break"),
